@@ -344,7 +344,7 @@ theorem ColForm.foldlM_tables (F : ColForm σ) (ap : Bool) (enums : List Enum) :
     simpa using this
 
 theorem ColForm.build_tables (F : ColForm σ) (ap : Bool) (ts : List (FTab σ)) (hd : ts.Pairwise (fun a b => a.name ≠ b.name))
-    (hok : ∀ t ∈ ts, F.allOK ap t.cols) :
+    (hok : ∀ t ∈ ts, F.allOK ap t.cols) (hno : ∀ t ∈ ts, ∀ s ∈ t.cols, F.irefs s = []) :
     buildDatabase ap (ts.map F.mkElem) = .ok { tables := ts.map F.mkTable, allowProps := ap } := by
   have hT : tableBps (ts.map F.mkElem) = ts.map fun t => F.tableBpC t.name t.cols t.comment := by
     simp [tableBps, ColForm.mkElem, List.filterMap_map, Function.comp_def]
@@ -358,11 +358,11 @@ theorem ColForm.build_tables (F : ColForm σ) (ap : Bool) (ts : List (FTab σ)) 
     simp [projectBp, ColForm.mkElem, List.filterMap_map, Function.comp_def]
   have hR : refBlueprints (ts.map F.mkElem) = [] := by
     simp only [refBlueprints, ColForm.mkElem, List.flatMap_map, List.flatMap_eq_nil_iff]
-    intro t _
+    intro t ht
     simp only [ColForm.tableBpC, List.flatMap_eq_nil_iff]
     intro b hb
-    obtain ⟨s, _, rfl⟩ := List.mem_map.mp hb
-    simp [F.norefs]
+    obtain ⟨s, hs, rfl⟩ := List.mem_map.mp hb
+    simp [F.norefs s (hno t ht s hs)]
   have hF := F.foldlM_tables ap [] ts [] (by simpa using hd) hok (fun t _ => F.noShadow_nil t)
   simp only [List.map_nil, List.nil_append] at hF
   unfold buildDatabase
@@ -370,17 +370,18 @@ theorem ColForm.build_tables (F : ColForm σ) (ap : Bool) (ts : List (FTab σ)) 
 
 /-! ### the rendering of such a database -/
 
-theorem ColForm.renderTableBody_ok (F : ColForm σ) (db : Db)
-    (hni : ∀ r ∈ db.refs, r.inline = false) (ti : Nat) (tn : Str) (cs : List σ) (cm : Option Str)
+theorem ColForm.renderTableBody_ok (F : ColForm σ) (db : Db) (ti : Nat) (tn : Str) (cs : List σ) (cm : Option Str)
+    (hinl : ∀ ci s, cs[ci]? = some s →
+      (Dbml.inlineRefsOfColumn db ti ci).mapM (Dbml.renderInlineRef db) = .ok ((F.irefs s).map IRefT.text))
     (hcs : F.allOK db.allowProps cs) (hne : cs ≠ []) (hcm : CmOK cm) :
     Dbml.renderTableBody db ti { F.table tn cs with comment := cm }
       = .ok (commentText cm ++ F.tableText tn cs) := by
   have hcols : (List.range (F.table tn cs).columns.length).mapM (fun ci => do
       let c ← getD? (F.table tn cs).columns ci "column position"
       Dbml.renderColumn db ti ci c) = .ok (cs.map F.str) :=
-    range_mapM_form F.col "column position" F.str cs
+    range_mapM_form_pos F.col "column position" F.str cs
       (fun ci c => Dbml.renderColumn db ti ci c)
-      (fun i s hs => F.render db ti i s (hcs s hs) hni)
+      (fun i s hs => F.render db ti i s (hcs s (List.mem_of_getElem? hs)) (hinl i s hs))
   have hbody : Dbml.indent4 (joinNL (cs.map F.str)) ++ ['\n'] = F.text cs := by
     rw [F.text_flatMap]
     apply indent4_lines
@@ -401,6 +402,18 @@ theorem ColForm.renderTableBody_ok (F : ColForm σ) (db : Db)
   rw [← hbody]
   simp
 
+/-- the inline references of a column that declares none, in a database that hosts none -/
+theorem ColForm.inl_plain (F : ColForm σ) (db : Db) (hni : ∀ r ∈ db.refs, r.inline = false) (ti : Nat) (cs : List σ)
+    (hno : ∀ s ∈ cs, F.irefs s = []) (ci : Nat) (s : σ) (hs : cs[ci]? = some s) :
+    (Dbml.inlineRefsOfColumn db ti ci).mapM (Dbml.renderInlineRef db) = .ok ((F.irefs s).map IRefT.text) := by
+  have hf : Dbml.inlineRefsOfColumn db ti ci = [] := by
+    unfold Dbml.inlineRefsOfColumn
+    rw [List.filter_eq_nil_iff]
+    intro r hr
+    simp [hni r hr]
+  rw [hf, hno s (List.mem_of_getElem? hs)]
+  rfl
+
 theorem ColForm.joinWith_tables (F : ColForm σ) : ∀ (ts : List (FTab σ)),
     joinWith (lit "\n\n") (ts.map fun t => F.tabText t) = F.docText ts := by
   intro ts
@@ -420,13 +433,15 @@ theorem range_mapM_mem {α β} (l : List α) (why : String) (g : Nat → α → 
   rw [range_mapM_getD_idx l why g (fun x => Except.ok (h x)) hg]
   exact mapM_ok_map _ _ (fun _ => rfl) l
 
-theorem ColForm.renderDb_tables (F : ColForm σ) (ap : Bool) (ts : List (FTab σ)) (hok : ∀ t ∈ ts, F.specOK ap t) :
+theorem ColForm.renderDb_tables (F : ColForm σ) (ap : Bool) (ts : List (FTab σ)) (hok : ∀ t ∈ ts, F.specOK ap t)
+    (hno : ∀ t ∈ ts, ∀ s ∈ t.cols, F.irefs s = []) :
     Dbml.renderDb { tables := ts.map F.mkTable, allowProps := ap } = .ok (F.docText ts) := by
   have htabs : (List.range (ts.map F.mkTable).length).mapM (Dbml.renderTable { tables := ts.map F.mkTable, allowProps := ap })
       = .ok (ts.map fun t => F.tabText t) := by
     have := range_mapM_form F.mkTable "table position" (fun t => F.tabText t) ts
       (fun i t => Dbml.renderTableBody { tables := ts.map F.mkTable, allowProps := ap } i t)
-      (fun i t ht => F.renderTableBody_ok { tables := ts.map F.mkTable, allowProps := ap } (by simp) i t.name t.cols t.comment (hok t ht).2.1 (hok t ht).2.2.1 (hok t ht).2.2.2)
+      (fun i t ht => F.renderTableBody_ok { tables := ts.map F.mkTable, allowProps := ap } i t.name t.cols t.comment
+        (F.inl_plain _ (by simp) i t.cols (hno t ht)) (hok t ht).2.1 (hok t ht).2.2.1 (hok t ht).2.2.2)
     unfold Dbml.renderTable
     exact this
   unfold Dbml.renderDb Dbml.renderProjectList
@@ -438,10 +453,11 @@ theorem ColForm.renderDb_tables (F : ColForm σ) (ap : Bool) (ts : List (FTab σ
     to DBML and parsed back to exactly the same database - the same tables in the same order with the same columns in
     the same order. -/
 theorem form_tables_roundtrip (F : ColForm σ) (ap : Bool) (ts : List (FTab σ)) (hok : ∀ t ∈ ts, F.specOK ap t)
-    (hne : ts ≠ []) (hd : ts.Pairwise (fun a b => a.name ≠ b.name)) :
+    (hne : ts ≠ []) (hd : ts.Pairwise (fun a b => a.name ≠ b.name))
+    (hno : ∀ t ∈ ts, ∀ s ∈ t.cols, F.irefs s = []) :
     ∃ text, Dbml.renderDb { tables := ts.map F.mkTable, allowProps := ap } = .ok text
       ∧ Build.parse ap text = .ok { tables := ts.map F.mkTable, allowProps := ap } := by
-  refine ⟨F.docText ts, F.renderDb_tables ap ts hok, ?_⟩
+  refine ⟨F.docText ts, F.renderDb_tables ap ts hok hno, ?_⟩
   obtain ⟨c', hp⟩ := F.parseDoc_tables ap ts hok hne
   unfold Build.parse
   have hbom : removeBom (F.docText ts) = F.docText ts := by
@@ -452,7 +468,7 @@ theorem form_tables_roundtrip (F : ColForm σ) (ap : Bool) (ts : List (FTab σ))
       | none => simp [removeBom, ColForm.docText, ColForm.tabTextP, ColForm.tableTextP, commentText, hcmt]
       | some s => simp [removeBom, ColForm.docText, ColForm.tabTextP, commentText, hcmt]
   rw [hbom, hp]
-  simp [F.build_tables ap ts hd (fun t ht => (hok t ht).2.1)]
+  simp [F.build_tables ap ts hd (fun t ht => (hok t ht).2.1) hno]
 
 end C02
 end PyDBML
